@@ -230,18 +230,25 @@ def body(rep, case, sub="dense"):
 
 # -- strategies -----------------------------------------------------------------------------------
 
-def cur_states(modes):
+def targets(edge=None):
+    # the ends of the remote's own range are where range bookkeeping goes wrong: drawn as often as any other value
+    if edge:
+        return st.one_of(st.integers(16, 30), st.sampled_from([t for t in edge if 16 <= t <= 30] or [16, 30]))
+    return st.integers(16, 30)
+
+
+def cur_states(modes, edge=None):
     return st.fixed_dictionaries({"on": st.booleans(), "mode": st.sampled_from(modes), "fan": st.integers(0, 3),
-                                  "swing": st.booleans(), "target": st.integers(16, 30), "temp_tenths": st.integers(0, 65535),
+                                  "swing": st.booleans(), "target": targets(edge), "temp_tenths": st.integers(0, 65535),
                                   "remote_id": st.just("ELEC7001")})
 
 
-def requests(modes):
+def requests(modes, edge=None):
     return st.builds(
         lambda mask, on, mode, target, fan, swing: {
             "state": on if mask & 1 else None, "mode": mode if mask & 2 else None, "target": target if mask & 4 else 0,
             "fan": fan if mask & 8 else None, "swing": swing if mask & 16 else None},
-        st.integers(0, 31), st.booleans(), st.sampled_from(modes), st.integers(16, 30), st.integers(0, 3), st.booleans())
+        st.integers(0, 31), st.booleans(), st.sampled_from(modes), targets(edge), st.integers(0, 3), st.booleans())
 
 
 ALLMODES = irset.MODES
@@ -254,12 +261,18 @@ def strat(dense, faults):
             spec = dict(spec, off=True, tmin=min(spec["tmin"], 16), tmax=max(spec["tmax"], 30)) if dense else spec
             # the device may report (and the caller may ask for) a mode the remote does not support: error path
             modes = ALLMODES if not dense else spec["modes"]
+            if not dense and spec.get("lonely_min"):
+                # keep the remote's lowest temperature inside the thermostat's 16..30 so that it can be asked for
+                lo = 16 + spec["seed"] % 10
+                spec = dict(spec, tmin=lo, tmax=max(spec["tmax"], lo + 3))
+            edge = [spec["tmin"], spec["tmin"] + 1, spec["tmax"]]
+            modes_w = modes if dense else list(modes) + [m for m in ("cool", "heat") if m in spec["modes"]] * 2
             return st.builds(
                 lambda cur, req, update, fault, dev, sess, ts, salt, transient: dict({
                     "ir": spec, "cur": cur, "req": req, "update": update, "fault": None if transient else fault,
                     "device_id": dev, "session": sess, "ts": ts, "salt": salt},
                     **({"empty_read": fault} if transient and fault is not None else {})),
-                cur_states(modes), requests(modes), st.booleans(),
+                cur_states(modes_w, edge), requests(modes_w, edge), st.booleans(),
                 st.integers(0, 3) if faults else st.none(), gen.device_ids, gen.sessions, gen.timestamps, st.integers(1, 100),
                 st.booleans() if faults else st.just(False)).flatmap(
                     lambda c: st.one_of(st.just(c), st.just(c), st.builds(
